@@ -85,7 +85,15 @@ def canonRequest (bs : Bytes) : String := hexOrDash bs
 
 def sortHeaders (hs : Headers) : Headers := hs.foldl (fun acc p => insertSorted p acc) []
 
-def urlShow (u : Url) : String := hexOfBytes u.absoluteForm
+/-- the whole URL as the `url` crate serialises it (`Url::as_str`): userinfo and fragment included -/
+def urlShow (u : Url) : String :=
+  let userinfo : Bytes :=
+    match u.user, u.pass with
+    | [], none => []
+    | us, none => us ++ [64]
+    | us, some pw => us ++ [58] ++ pw ++ [64]
+  let frag : Bytes := match u.fragment with | some f => [35] ++ f | none => []
+  hexOfBytes (u.scheme ++ str "://" ++ userinfo ++ u.authority ++ u.originForm ++ frag)
 
 def finalToString : Final → String
   | .ok st u => s!"ok:{st}:{urlShow u}"
